@@ -112,7 +112,28 @@ def check(tier: str) -> Result:
                 if not contains(v, P):
                     ok, why = False, f"self.time_limit = {txt(v)} does not depend on the time_limit argument"
                 else:
-                    raise AnalysisError(f"{env}.__init__: unrecognised flow self.time_limit = {txt(v)}")
+                    # forms that definitely replace some positive value of the argument by another value
+                    from ..normal import ext_name as _ext
+                    n_ = _ext(v)
+                    oper = [strip_cast(x) for x in (v.args[1] if v.kind == "call" else ())]
+                    if n_ in ("builtins.max", "jax.numpy.maximum", "numpy.maximum") and len(oper) == 2 and any(x is P for x in oper):
+                        other = [x for x in oper if x is not P][0]
+                        if other.kind == "const" and isinstance(other.args[0], int) and other.args[0] <= 1:
+                            ok, why = True, "max(time_limit, c) with c <= 1 is the identity on positive limits"
+                        else:
+                            ok, why = False, f"self.time_limit = {txt(v)}: every time_limit below {txt(other, 3, 60)} is silently replaced by it"
+                    elif n_ in ("builtins.min", "jax.numpy.minimum", "numpy.minimum") and len(oper) == 2 and any(x is P for x in oper):
+                        other = [x for x in oper if x is not P][0]
+                        ok, why = False, f"self.time_limit = {txt(v)}: every time_limit above {txt(other, 3, 60)} is silently replaced by it"
+                    elif v.kind == "bin" and (strip_cast(v.args[1]) is P or strip_cast(v.args[2]) is P):
+                        other = strip_cast(v.args[2]) if strip_cast(v.args[1]) is P else strip_cast(v.args[1])
+                        ident = other.kind == "const" and ((v.args[0] in ("+", "-") and other.args[0] == 0) or (v.args[0] in ("*", "//") and other.args[0] == 1))
+                        if ident:
+                            ok, why = True, "arithmetic identity"
+                        else:
+                            ok, why = False, f"self.time_limit = {txt(v)} is not the value passed as time_limit"
+                    else:
+                        raise AnalysisError(f"{env}.__init__: unrecognised flow self.time_limit = {txt(v)}")
             res.add("C11.R1", e.loc(), f"{env}.__init__", "self.time_limit <- time_limit", ok, f"{why}: {txt(v)}")
             # documented default `num_rows * num_cols`: a product of two grid extents must use both axes
             from ..axis import NAME_AXIS
